@@ -146,6 +146,26 @@ def explore_state(acc, pendulum, z, inst, inter, deep=True, kinds=True):
     if len(keys) > 1:
         acc.mismatch("route-independence", "depth1", base, sorted(map(str, keys)), "one observable state")
     acc.c["impl_states"] += len(keys)
+    # a fixed-offset target built by the caller with its OWN name: the result reports that zone (name included)
+    if isinstance(z, int) or deep:
+        off = z if isinstance(z, int) else obs.expected_render(z, inst)[1]
+        named = pendulum.FixedTimezone(off, name="XST")
+        exp_named = obs.expected_render(off, inst)
+        for name, fn in (("in_timezone(named-fixed)", lambda: u.in_timezone(named)), ("in_tz(named-fixed)", lambda: u.in_tz(named)),
+                         ("from_timestamp(named-fixed)", lambda: pendulum.from_timestamp(inst / US, tz=named)),
+                         ("instance(native-with-named-fixed)", lambda: pendulum.instance(nu.astimezone(named))),
+                         ("chain-to-named-fixed", lambda: a.in_timezone(named))):
+            if "from_timestamp" in name and not (us == 0 or abs(s) < (1 << 31)):
+                continue
+            try:
+                r = fn()
+                got = [obs.fields(r), obs.offset_s(r), r.timezone_name, r.tzname()]
+            except Exception as e:  # noqa: BLE001
+                got = f"raises {type(e).__name__}"
+            acc.c["transitions"] += 1
+            want = [exp_named[0], exp_named[1], "XST", "XST"]
+            if got != want:
+                acc.mismatch(name, "named-fixed-target", dict(base, op=name), got, want)
     # astimezone() without an argument: the process's local zone (the harness pins TZ=UTC)
     try:
         xl = a.astimezone()
